@@ -159,9 +159,14 @@ func HarnessC20Spans() {
 		add(vReqS("nosuchcommand"))
 	}
 	conn := newVconn(in)
-	if vsymChoice("cutmode", 2) == 1 {
+	switch vsymChoice("cutmode", 3) {
+	case 1:
 		conn.cut = vsymChoice("cut", len(in))
 		vsymCover("disconnect-inside")
+	case 2:
+		// the client stopped reading: the first or second reply and all later ones cannot be written
+		conn.failWrite = vsymChoice("write-fails-from", 2)
+		vsymCover("write-failure")
 	}
 	server.receive(conn, nil)
 	roots := tr.check()
